@@ -50,6 +50,19 @@ CLAIMED["C02"] = dict(
     technique=E2 + "; NRA with sqrt/pow axiom instances and separately discharged lemmas",
 )
 
+CLAIMED["C03"] = dict(
+    category="proof",
+    text=("The real EigenvalueCorrectedShampooPreconditionerList (constructor chain, update_preconditioners, _update_eigenvalue_corrections, precondition, "
+          "_amortized_computation) is executed on symbolic tensors for orders 1..4 and every ignored-dims subset: factor recurrence, refresh only on the flag, "
+          "corrected eigenvalues = second moment of the gradient rotated through the refreshed bases, direction = rotate / divide by (C/bc2+eps)^(1/root) / rotate "
+          "back with the same bases, original coordinates before a basis exists, ignored dims only permuted — proved for all values on every path. The dtype "
+          "discipline of the QR path is proved on the real _compute_orthogonal_iterations for all 9 dtype pairings."),
+    design_ref="DESIGN.md §4/C03",
+    note=("structure proved; orthonormality/diagonalisation of the stored bases rest on the assumed eigh/qr contracts (C12) and are sampled natively (bounded); "
+          "tensordot/permute uninterpreted per signature; real arithmetic; bases under tolerated failures are C13's subject"),
+    technique=E2 + "; uninterpreted matrix functions + dtype theory",
+)
+
 NOT_YET = "no check committed yet for this property (work in progress; see DESIGN.md for the planned contract)"
 
 
